@@ -522,8 +522,15 @@ def wt_post(I, outcome, ctx):
         I.oblige('timeout_is_thrown_into_the_parked_caller', z3.And(z3.BoolVal(isinstance(t, VTuple) and len(t.items) == 3), t.items[0].t == I.field(state, 'task_event').t,
                                                                    t.items[2].t == I.field(state, 'st_parent').t))
         names = sorted((r[0].t.decl().name() if isinstance(r[0], VRef) else '?') for r in rem)
-        I.oblige('both_temporary_handlers_removed', z3.BoolVal(len(rem) == 2 and names == ['_on_done_handler', '_on_tick_handler']),
+        I.oblige('both_temporary_handlers_removed', z3.BoolVal({'_on_done_handler', '_on_tick_handler'} <= set(names) and len(names) == len(set(names))),
                  detail='no temporary handler remains after a timeout')
+        # from the property ("when the system is quiescent again no temporary handlers ... remain", "every timeout value"): the
+        # handler that waits for the event itself is still installed iff the event has not been seen yet (it removes itself when
+        # it binds, WInv: installed <=> not state.run); a timeout must take it away too, and must not remove it twice
+        run0 = z3.Select(pre['run'][0], state.t)
+        I.oblige('event_handler_removed_iff_still_installed', z3.BoolVal('_on_event_handler' in names) == z3.Not(run0),
+                 detail='after a timeout for an event that never arrived the temporary handler for the event name must be removed as well')
+        I.oblige('only_own_temporary_handlers_removed', z3.BoolVal(set(names) <= {'_on_done_handler', '_on_tick_handler', '_on_event_handler'}))
 
 
 SPECS.append(FucSpec(
